@@ -59,12 +59,27 @@ inductive Stmt where
   | break
   | continue
   | ret (e : Option Expr)
+  | empty                                  -- `;`
+  | switch (c : Expr) (b : Stmt)
+  | caseLabel (e : Expr) (s : Stmt)        -- `case e: s` (the label owns the next statement)
+  | defaultLabel (s : Stmt)
   deriving Repr, Inhabited
 inductive Stmts where
   | nil
   | cons (s : Stmt) (r : Stmts)
   deriving Repr, Inhabited
 end
+
+/-- the tail of `generate_scope_block`'s loop body: a new statement fills the still-empty slot of a label that is the
+last statement so far, otherwise it is appended -/
+def pushStmt : Stmts → Stmt → Stmts
+  | .nil, s => .cons s .nil
+  | .cons x .nil, s =>
+    match x with
+    | .caseLabel e .empty => .cons (.caseLabel e s) .nil
+    | .defaultLabel .empty => .cons (.defaultLabel s) .nil
+    | _ => .cons x (.cons s .nil)
+  | .cons x (.cons y r), s => .cons x (pushStmt (.cons y r) s)
 
 /-- `FunctionDefinition` (name, return type name, parameters with `in`/`out`/`inout` modifier and type name, body) -/
 structure Func where
